@@ -273,7 +273,7 @@ fn main() {
     ctx.arm("c12", 1800.0);
     // ---- exhaustive small part counts
     let maxn = if ctx.tier == Tier::Thorough { 5 } else if ctx.is_sanitizer_tier() { 3 } else { 4 };
-    let reps = ctx.volume(20, 300, 1, 2);
+    let reps = ctx.volume(20, 300, 3, 2);
     ctx.run_cases("exhaustive", reps * maxn as u64, |ctx, idx, rng| {
         let n = 1 + (idx as usize % maxn);
         let st = start_tick(rng);
@@ -309,7 +309,7 @@ fn main() {
         ctx.note("exhaustive: for 1..5 parts every permutation, plain and with every single duplication at every position (exhaustive for that sub-space per sampled transfer); larger part counts and interleavings are sampled");
     }
     // ---- sampled: many parts, random duplication
-    let n = ctx.volume(6_000, 400_000, 3, 100);
+    let n = ctx.volume(6_000, 400_000, 20, 100);
     ctx.run_cases("sampled", n, |ctx, _i, rng| {
         let parts = *rng.pick(&[2usize, 6, 10, 31, 32, 32]);
         let st = start_tick(rng);
@@ -329,7 +329,7 @@ fn main() {
         ctx.case(if s.len() >= 2 { Some(verif_harness::fnv1a(format!("{:?}", s).as_bytes())) } else { None });
     });
     // ---- interleaved with older and newer ticks
-    let n = ctx.volume(15_000, 800_000, 3, 100);
+    let n = ctx.volume(15_000, 800_000, 20, 100);
     ctx.run_cases("interleaved", n, |ctx, _i, rng| {
         // ticks t0 < tx < t1 < t2
         let t0 = start_tick(rng);
